@@ -2263,6 +2263,12 @@ def gen_gpsdsetup(rng, n):
                 else:
                     toks.append(tok_json({'class': 'devices', 'devices': [{'path': '/dev/evil'}]}))
             chunks.append(';'.join(toks))
+        if rng.random() < 0.3:
+            # a read that holds only text that is no JSON and ends without a line break (or raw receiver data), directly before the read
+            # that carries a device report
+            k = next((j for j, c in enumerate(chunks) if 'DEVICES'.encode().hex() in c), None)
+            if k is not None:
+                chunks.insert(k, rng.choice(['X', 'X', 'X;X', 'U']))
         yield f'gpsdsetup|{"-" if want is None else want.encode().hex()}|' + '/'.join(chunks) + '|' + rand_payload(rng, rng.choice([0, 8])).hex()
 
 
